@@ -375,6 +375,28 @@ ChildPlan World::OnSpawn(Kernel& kk, const std::string& cmd, bool console) {
     if (none) return;
     // a manifest generator replaces build.ninja atomically or not at all
     if (sv.regen && (partial || status != 0)) return;
+    // (compilers differ in whether the dependency file or the object is written last)
+    bool depfile_first = Hash64(&myseq, sizeof myseq, (uint64_t)sv.id * 3 + 1) % 2 == 0;
+    auto write_depfile = [&]() {
+      if ((sv.deps_kind == 1 || sv.deps_kind == 2) && !partial && status == 0) {
+        std::string d = DepfileEscape(sv.outs[0]) + ":";
+        for (auto& p : rs) {
+          // compilers spell the same file in several ways
+          std::string sp = p;
+          uint64_t style = Hash64(p, myseq) % 6;
+          if (style == 0) sp = "./" + p;
+          else if (style == 1) { size_t sl = p.find('/'); sp = sl == std::string::npos ? "././" + p : p.substr(0, sl) + "//" + p.substr(sl + 1); }
+          else if (style == 2) { size_t sl = p.find('/'); sp = sl == std::string::npos ? p : p.substr(0, sl) + "/./" + p.substr(sl + 1); }
+          d += " " + DepfileEscape(sp);
+        }
+        d += "\n";
+        k2.WriteFile(sv.depfile, d);
+        k2.Trace(Ev::kChildEffect, c.pid, sv.id, sv.depfile);
+      } else if ((sv.deps_kind == 1 || sv.deps_kind == 2) && partial) {
+        k2.WriteFile(sv.depfile, DepfileEscape(sv.outs[0]) + ": \n");
+      }
+    };
+    if (depfile_first) write_depfile();
     for (size_t i = 0; i < outs.size(); i++) {
       std::string content = OutputContent(sv, (int)i, snap, rsp_content);
       const DyndepFile* d = scp->FindDyndep(outs[i]);
@@ -407,23 +429,7 @@ ChildPlan World::OnSpawn(Kernel& kk, const std::string& cmd, bool console) {
       k2.WriteFile(outs[i], content);
       k2.Trace(Ev::kChildEffect, c.pid, sv.id, outs[i]);
     }
-    if ((sv.deps_kind == 1 || sv.deps_kind == 2) && !partial && status == 0) {
-      std::string d = DepfileEscape(sv.outs[0]) + ":";
-      for (auto& p : rs) {
-        // compilers spell the same file in several ways
-        std::string sp = p;
-        uint64_t style = Hash64(p, myseq) % 6;
-        if (style == 0) sp = "./" + p;
-        else if (style == 1) { size_t sl = p.find('/'); sp = sl == std::string::npos ? "././" + p : p.substr(0, sl) + "//" + p.substr(sl + 1); }
-        else if (style == 2) { size_t sl = p.find('/'); sp = sl == std::string::npos ? p : p.substr(0, sl) + "/./" + p.substr(sl + 1); }
-        d += " " + DepfileEscape(sp);
-      }
-      d += "\n";
-      k2.WriteFile(sv.depfile, d);
-      k2.Trace(Ev::kChildEffect, c.pid, sv.id, sv.depfile);
-    } else if ((sv.deps_kind == 1 || sv.deps_kind == 2) && partial) {
-      k2.WriteFile(sv.depfile, DepfileEscape(sv.outs[0]) + ": \n");
-    }
+    if (!depfile_first) write_depfile();
     if (status == 0 && !partial) self->reported_hidden[sv.id] = hidden;
     // a generator may end with `ninja -t restat` (CMake's regeneration does): the build log is
     // replaced by a copy whose recorded mtimes are the outputs' current ones - which is why
